@@ -313,6 +313,8 @@ def _reads_member_directly(text: str, op: str) -> bool:
 
 
 def run(ctx) -> None:
+    from .common import octet_length_lint as _oll
+    ctx.guard(_oll, "R19.9")  # integers round-trip exactly: bit sizes become octets by (bits + 7) // 8
     ctx.guard(r19_8)
     from .common import forwarding_discipline
     ctx.guard(forwarding_discipline, "R19.7", ['s', 'data'], 4)  # arguments are handed on under their own name (generic routing rule, rules/common.py)
